@@ -43,10 +43,12 @@ Definition resp_eqb (a b : resp) : bool :=
   end.
 
 (* observed state of one selected connection:
-   (_sorted, _seqs_cache sorted by uid, _flags_key_map sorted by uid,
-    _pending_remove sorted, SessionFlags._recent sorted, mod_sequence, _hide_expunged) *)
+   (_sorted, _pending_remove sorted, SessionFlags._recent sorted, mod_sequence,
+    _hide_expunged, optionally (_seqs_cache sorted by uid, _flags_key_map sorted by uid));
+   the optional part is written at the first and last step of a case and every
+   few steps in between (case files must stay small: Coq needs about 1 ms per token) *)
 Definition sel_obs : Type :=
-  list N * list (N * N) * list (N * flags) * list N * list N * option N * bool.
+  list N * list N * list N * option N * bool * option (list (N * N) * list (N * flags)).
 
 Fixpoint asort {V} (l : list (N * V)) : list (N * V) :=
   let fix ins (kv : N * V) (l : list (N * V)) :=
@@ -58,40 +60,53 @@ Fixpoint asort {V} (l : list (N * V)) : list (N * V) :=
 
 Definition sel_obs_of (s : selected) : sel_obs :=
   let v := sel_view s in
-  (v_sorted v, asort (v_seqs v), asort (v_fkeys v), nsort (v_pending v), nsort (sel_recent s),
-   sel_modseq s, sel_hide s).
+  (v_sorted v, nsort (v_pending v), nsort (sel_recent s), sel_modseq s, sel_hide s,
+   Some (asort (v_seqs v), asort (v_fkeys v))).
 
 Definition nn_eqb := eqb_list (pair_eqb N.eqb N.eqb).
 Definition nf_eqb := eqb_list (pair_eqb N.eqb fs_eqb).
 Definition nl_eqb := eqb_list (pair_eqb N.eqb nlist_eqb).
 
+(* a = the model's, b = the observation (its optional part may be absent) *)
 Definition sel_obs_eqb (a b : sel_obs) : bool :=
-  let '(s1, q1, k1, p1, r1, m1, h1) := a in
-  let '(s2, q2, k2, p2, r2, m2, h2) := b in
-  nlist_eqb s1 s2 && nn_eqb q1 q2 && nf_eqb k1 k2 && nlist_eqb p1 p2 && nlist_eqb r1 r2
-  && opt_eqb N.eqb m1 m2 && Bool.eqb h1 h2.
+  let '(s1, p1, r1, m1, h1, x1) := a in
+  let '(s2, p2, r2, m2, h2, x2) := b in
+  nlist_eqb s1 s2 && nlist_eqb p1 p2 && nlist_eqb r1 r2
+  && opt_eqb N.eqb m1 m2 && Bool.eqb h1 h2
+  && match x2, x1 with
+     | None, _ => true
+     | Some (q2, k2), Some (q1, k1) => nn_eqb q1 q2 && nf_eqb k1 k2
+     | Some _, None => false
+     end.
 
-(* observed mailbox: (_max_uid, [(uid, flags, recent)] in dict order,
-   highest, _uids sorted, _updates sorted (sets sorted), _expunges likewise, _mod_seqs_order) *)
-Definition box_obs : Type :=
-  N * list (N * flags * bool) * N * list (N * N) * list (N * list N) * list (N * list N) * list N.
+(* observed mailbox: (_max_uid, [(uid, flags, recent)] in dict order, highest,
+   optionally the log: (_uids sorted, _updates sorted (sets sorted), _expunges likewise,
+   _mod_seqs_order)) *)
+Definition log_obs : Type := list (N * N) * list (N * list N) * list (N * list N) * list N.
+Definition box_obs : Type := N * list (N * flags * bool) * N * option log_obs.
 
 Definition box_obs_of (b : mbox) : box_obs :=
   let lg := mb_log b in
   (mb_max_uid b, map (fun m => (m_uid m, m_flags m, m_recent m)) (mb_msgs b),
-   ms_highest lg, asort (ms_uids lg),
-   asort (map (fun kv => (fst kv, nsort (snd kv))) (ms_updates lg)),
-   asort (map (fun kv => (fst kv, nsort (snd kv))) (ms_expunges lg)),
-   ms_order lg).
+   ms_highest lg,
+   Some (asort (ms_uids lg),
+         asort (map (fun kv => (fst kv, nsort (snd kv))) (ms_updates lg)),
+         asort (map (fun kv => (fst kv, nsort (snd kv))) (ms_expunges lg)),
+         ms_order lg)).
 
 Definition msg_obs_eqb (a b : N * flags * bool) : bool :=
   let '(u, f, r) := a in let '(u', f', r') := b in (u =? u')%N && fs_eqb f f' && Bool.eqb r r'.
 
 Definition box_obs_eqb (a b : box_obs) : bool :=
-  let '(mx, ms, h, u, up, ex, o) := a in
-  let '(mx', ms', h', u', up', ex', o') := b in
-  (mx =? mx')%N && eqb_list msg_obs_eqb ms ms' && (h =? h')%N && nn_eqb u u'
-  && nl_eqb up up' && nl_eqb ex ex' && nlist_eqb o o'.
+  let '(mx, ms, h, lg) := a in
+  let '(mx', ms', h', lg') := b in
+  (mx =? mx')%N && eqb_list msg_obs_eqb ms ms' && (h =? h')%N
+  && match lg', lg with
+     | None, _ => true
+     | Some (u', up', ex', o'), Some (u, up, ex, o) =>
+       nn_eqb u u' && nl_eqb up up' && nl_eqb ex ex' && nlist_eqb o o'
+     | Some _, None => false
+     end.
 
 Record step_obs := MkObs {
   ob_out : list resp;                  (* responses written to the acting connection *)
